@@ -41,6 +41,57 @@ func c11Scenarios() []ConcScenario {
 					Plans: []TunnelPlan{{Kind: kind, ConnID: "A", User: "ua", IP: "10.0.0.1", Host: "ha.example:3389", StopAt: "accepted", Script: []string{cause, "idle"}}}})
 			}
 		}
+		if kind == "legacy" {
+			// compound endings: the outbound connection is lost first (the host keeps writing, so writes to the
+			// client fail), then the tunnel ends on the inbound connection in one of the ordinary ways
+			for _, then := range []string{"close", "bad", "garbage", "dropin", "data:late;close", "ka;dropin"} {
+				for _, settle := range []bool{true, false} {
+					script := []string{"data:abc", "dropout"}
+					if settle {
+						script = append(script, "settle")
+					}
+					script = append(script, "hostsay:host-bytes-after-the-outbound-loss", "hostsay:more")
+					if settle {
+						script = append(script, "settle")
+					}
+					script = append(script, strings.Split(then, ";")...)
+					script = append(script, "idle")
+					out = append(out, ConcScenario{Name: fmt.Sprintf("%s/dropout+%s/settle=%v", kind, strings.ReplaceAll(then, ";", "+"), settle),
+						Plans: []TunnelPlan{{Kind: kind, ConnID: "A", User: "ua", IP: "10.0.0.1", Host: "ha.example:3389", Script: script, Chunks: [][]byte{[]byte("host-bytes")}}}})
+				}
+			}
+		}
+		// the client goes away in the middle of a packet (1, 7, 8, 9, 40, 109 of 110 bytes sent), at two stages
+		for _, n := range []int{1, 7, 8, 9, 40, 109} {
+			drops := []string{"drop"}
+			if kind == "legacy" {
+				drops = append(drops, "dropin")
+			}
+			for _, d := range drops {
+				for _, stage := range []string{"hs", ""} {
+					for _, settle := range []bool{true, false} {
+						script := []string{fmt.Sprintf("partial:%d", n)}
+						if settle {
+							script = append(script, "settle")
+						}
+						script = append(script, d, "idle")
+						nm := stage
+						if nm == "" {
+							nm = "cc"
+						}
+						out = append(out, ConcScenario{Name: fmt.Sprintf("%s/partial%d+%s/%s/settle=%v", kind, n, d, nm, settle),
+							Plans: []TunnelPlan{{Kind: kind, ConnID: "A", User: "ua", IP: "10.0.0.1", Host: "ha.example:3389", StopAt: stage, Script: script}}})
+					}
+				}
+			}
+		}
+		if kind == "ws" {
+			// the host keeps writing while the client ends the tunnel
+			for _, then := range []string{"close", "bad", "drop"} {
+				out = append(out, ConcScenario{Name: fmt.Sprintf("%s/hostwrites+%s", kind, then),
+					Plans: []TunnelPlan{{Kind: kind, ConnID: "A", User: "ua", IP: "10.0.0.1", Host: "ha.example:3389", Script: []string{"data:abc", "hostsay:one", then, "hostsay:two", "hostsay:three", "idle"}, Chunks: [][]byte{[]byte("host-bytes")}}}})
+			}
+		}
 		for _, st := range stops {
 			if strings.HasPrefix(st.name, "cc") {
 				// a repeated CHANNEL_CREATE (protocol error) on an open channel
